@@ -196,6 +196,11 @@ func ClassifyMapLoop(fn *ssa.Function, lp MapLoop) (MOVerdict, string) {
 			}
 		}
 	}
+	// 3. early exit: leaving the loop before the map is exhausted makes the SET of entries processed
+	// depend on the iteration order whenever an iteration has an accumulating effect
+	if line, bad := earlyBreakWithEffects(fn, lp, region, iterDerived); bad {
+		return sensitive("the loop is left early at line %d after entries were already processed (which ones depends on map order)", line)
+	}
 	if len(notes) == 0 {
 		notes = append(notes, "no effect escapes the loop")
 	}
